@@ -136,6 +136,7 @@ type c01Config struct {
 	Reorder    bool   `json:"reorder"`
 	MaxDepth   int    `json:"bfs_depth_bound"`
 	DiffEvery  int    `json:"projection_check_every"`
+	CrashInside bool  `json:"crash_inside_steps"`
 	BudgetS    int    `json:"budget_s"`
 }
 
@@ -160,6 +161,9 @@ type c01Result struct {
 	Confirmed    []bool         `json:"violations_confirmed_on_fresh_engines,omitempty"`
 	WallS        float64        `json:"wall_s"`
 	SampleTrace  []string       `json:"sample_trace,omitempty"`
+	RestartStates        int      `json:"local_states_after_restart"`
+	ResignedAfterRestart int      `json:"local_states_signed_after_restart"`
+	RestartKeys          []string `json:"restart_keys,omitempty"`
 }
 
 func runC01Config(cfg c01Config) *c01Result {
@@ -187,12 +191,12 @@ func runC01Config(cfg c01Config) *c01Result {
 	execs := 0
 	if cfg.Mode == "dev" {
 		dr := x.searchDev(devCfg{maxDev: cfg.Dev, maxCrashes: cfg.Crashes, menu: bag, byz: cfg.Byz, stop: stop,
-			maxStates: cfg.MaxStates, reorder: cfg.Reorder})
+			maxStates: cfg.MaxStates, reorder: cfg.Reorder, crashInside: cfg.CrashInside})
 		res = &gResult{states: dr.states, transitions: dr.transitions, complete: dr.complete, depth: dr.maxDepth,
 			violations: dr.violations, finals: dr.finals, capHit: dr.capHit}
 		execs = dr.executions
 	} else {
-		res = x.search(searchCfg{maxCrashes: cfg.Crashes, maxStates: cfg.MaxStates, stop: stop, initialBag: bag, maxDepth: cfg.MaxDepth})
+		res = x.search(searchCfg{maxCrashes: cfg.Crashes, maxStates: cfg.MaxStates, stop: stop, initialBag: bag, maxDepth: cfg.MaxDepth, crashInside: cfg.CrashInside})
 	}
 	out := &c01Result{Config: cfg, States: res.states, Transitions: res.transitions, Depth: res.depth, Executions: execs,
 		Complete: res.complete, CapHit: res.capHit, LocalStates: x.stats.localStates, EngineSteps: x.stats.engineSteps,
@@ -202,13 +206,26 @@ func runC01Config(cfg c01Config) *c01Result {
 	if len(out.Mismatch) > 5 {
 		out.Mismatch = out.Mismatch[:5]
 	}
+	for i := range x.states {
+		for _, st := range x.states[i] {
+			if st.restarts > 0 {
+				out.RestartStates++
+				if st.resigned > 0 {
+					out.ResignedAfterRestart++
+					if len(out.RestartKeys) < 400 {
+						out.RestartKeys = append(out.RestartKeys, fmt.Sprintf("V%d/%d", i, st.id))
+					}
+				}
+			}
+		}
+	}
 	// every violation must reproduce on fresh real engines, driven only by the
 	// wire-level trace (no explorer tables), five times out of five
 	for _, v := range res.violations {
 		ok := true
 		for k := 0; k < 5; k++ {
-			fins, panics, cert := replayTrace(env, correct, v.Trace, nil)
-			if !violationHolds(v.Sig, fins, panics, cert) {
+			fins, panics, cert, c02 := replayTraceFull(env, correct, v.Trace, nil)
+			if !violationHoldsFull(v.Sig, fins, panics, cert, c02) {
 				ok = false
 			}
 		}
@@ -216,6 +233,26 @@ func runC01Config(cfg c01Config) *c01Result {
 	}
 	out.WallS = time.Since(t0).Seconds()
 	return out
+}
+
+func violationHoldsFull(sig string, fins map[int]string, panics map[int]string, cert map[int]bool, c02 map[int][2]string) bool {
+	switch sig {
+	case "equivocation":
+		for _, v := range c02 {
+			if v[0] != "" {
+				return true
+			}
+		}
+		return false
+	case "sent-before-durable":
+		for _, v := range c02 {
+			if v[1] != "" {
+				return true
+			}
+		}
+		return false
+	}
+	return violationHolds(sig, fins, panics, cert)
 }
 
 func violationHolds(sig string, fins map[int]string, panics map[int]string, cert map[int]bool) bool {
@@ -399,6 +436,9 @@ func TestVerifC01(t *testing.T) {
 			r.Cap("projection mismatch in " + res.Config.Name)
 		}
 		for vi, v := range res.Violations {
+			if v.Sig == "equivocation" || v.Sig == "sent-before-durable" {
+				continue // C02's property, decided by bin/check C02
+			}
 			if vi < len(res.Confirmed) && !res.Confirmed[vi] {
 				fmt.Printf("HARNESS-ERROR property=C01 config %s: violation %s did not reproduce on fresh engines\n", res.Config.Name, v.Sig)
 				r.Cap("non-reproducing violation in " + res.Config.Name)
